@@ -286,9 +286,6 @@ Qed.
 (* ------------------------------------------------------------------------------------------ *)
 (** * the sub-sections of a table *)
 
-Definition kind_of (p : path) (a : bool) : skind :=
-  match p with [] => KRoot | _ :: _ => if a then KArr else KStd end.
-
 Lemma kind_of_snoc p k a : kind_of (p ++ [k]) a = if a then KArr else KStd.
 Proof. destruct p; reflexivity. Qed.
 
